@@ -2,3 +2,4 @@ import MimicProofs.Control
 import MimicProofs.Framing
 import MimicProofs.Wire
 import MimicProofs.Results
+import MimicProofs.Params
